@@ -121,7 +121,7 @@ def closure(E, g, with_kwargs):
 def _closure_task(with_kwargs):
     tag = "kwargs" if with_kwargs else "plain"
 
-    @task(f"closure.{tag}", props=["C32"], functions=FUNCS32)
+    @task(f"closure.{tag}", props=["C32", "C01", "C02", "C03"], functions=FUNCS32)
     def t(E):
         T = E.I.T
         g, k = G(E), key(E)
@@ -134,12 +134,14 @@ def _closure_task(with_kwargs):
         else:
             target, targs = g, full
         tr = E.method(cl, "simulate", k, extra)
-        E.prove(f"C32.GenerativeFunctionClosure.simulate.{tag}", E.eq(tr, E.method(target, "simulate", k, targs)))
+        # a closure used as a program: its trace / weight / score laws are those of the wrapped function at stored + extra
+        E.prove(f"C32.GenerativeFunctionClosure.simulate.{tag}", E.eq(tr, E.method(target, "simulate", k, targs)), also=["C01"])
         c = chm(E)
         E.prove(f"C32.GenerativeFunctionClosure.generate.{tag}",
-                E.eq(tuple(E.method(cl, "generate", k, c, extra)), tuple(E.method(target, "generate", k, c, targs))))
+                E.eq(tuple(E.method(cl, "generate", k, c, extra)), tuple(E.method(target, "generate", k, c, targs))),
+                also=["C03"])
         E.prove(f"C32.GenerativeFunctionClosure.assess.{tag}",
-                E.eq(tuple(E.method(cl, "assess", c, extra)), tuple(E.method(target, "assess", c, targs))))
+                E.eq(tuple(E.method(cl, "assess", c, extra)), tuple(E.method(target, "assess", c, targs))), also=["C02"])
         E.prove(f"C32.GenerativeFunctionClosure.call.{tag}",
                 E.eq(E.method(cl, "__call__", k, *extra), E.method(E.method(target, "simulate", k, targs), "get_retval")))
         old = T.abstract_trace("old", g=g.t)
